@@ -22,6 +22,7 @@ type Sched struct {
 	D        int      `json:"d,omitempty"`
 	EstSteps uint64   `json:"est,omitempty"`
 	Affine   bool     `json:"affine,omitempty"`
+	Hot      bool     `json:"hot,omitempty"`
 	Explicit []Switch `json:"explicit,omitempty"`
 }
 
@@ -104,6 +105,7 @@ type Stats struct {
 	Selects         uint64
 	TimersFired     uint64
 	ForcedGCs       uint64
+	HotNaps         uint64
 	Fingerprint     uint64
 	Truncated       bool
 	Aborted         string
